@@ -111,7 +111,6 @@ RECURSIVE ScanCands(_, _, _, _, _, _, _)
 RECURSIVE HasRuleWalk(_, _, _, _, _, _, _)
 RECURSIVE FoldAll(_, _, _, _, _, _, _)
 RECURSIVE FirstAny(_, _, _, _, _, _, _, _)
-RECURSIVE OfRuleFilter(_, _, _, _, _, _, _)
 RECURSIVE TakeUntil(_, _, _, _, _)
 
 \* `n.matches(rule)` evaluates the stop rule on a fresh environment
@@ -162,14 +161,9 @@ FirstAny(mode, U, T, subs, i, n, env, dummy) ==
     ELSE LET m == Eval(mode, U, T, subs[i], n, env) IN          \* every branch restarts from env
          IF m.ok THEN m ELSE FirstAny(mode, U, T, subs, i + 1, n, env, dummy)
 
-\* nthChild.ofRule: filter_map over the named siblings with one environment
-\* returns [kept |-> <<ids>>, env]
-OfRuleFilter(mode, U, T, of, sibs, i, acc) ==
-    IF i > Len(sibs) THEN acc
-    ELSE LET m == Eval(mode, U, T, of, sibs[i], acc.env) IN
-         OfRuleFilter(mode, U, T, of, sibs, i + 1,
-             [kept |-> IF m.ok THEN Append(acc.kept, sibs[i]) ELSE acc.kept,
-              env  |-> IF mode = "impl" \/ m.ok THEN m.env ELSE acc.env])
+\* nthChild.ofRule: every named sibling is tested on its own, starting from the environment the rule was given
+\* (since the fix: before, the bindings of one sibling constrained the test of the next)
+OfRuleKept(mode, U, T, of, sibs, env) == SelectSeq(sibs, LAMBDA c : Eval(mode, U, T, of, c, env).ok)
 
 Eval(mode, U, T, r, n, env) ==
     CASE r.op = "pattern" ->
@@ -181,10 +175,12 @@ Eval(mode, U, T, r, n, env) ==
       [] r.op = "nth" ->
            IF T[n].p = 0 THEN Fail(env)
            ELSE LET named == NamedKids(T, T[n].p)
-                    f == IF r.of.op = "none" THEN [kept |-> named, env |-> env]
-                         ELSE OfRuleFilter(mode, U, T, r.of, named, 1, [kept |-> <<>>, env |-> env])
-                    lst == IF r.rev THEN Reverse(f.kept) ELSE f.kept IN
-                [ok |-> \E k \in 1..Len(lst) : lst[k] = n /\ AnBSelect(r.a, r.b, k), env |-> f.env]
+                    kept == IF r.of.op = "none" THEN named ELSE OfRuleKept(mode, U, T, r.of, named, env)
+                    lst == IF r.rev THEN Reverse(kept) ELSE kept
+                    ok == \E k \in 1..Len(lst) : lst[k] = n /\ AnBSelect(r.a, r.b, k) IN
+                \* the variables of the ofRule are exposed as bound on the node itself
+                IF ok /\ r.of.op # "none" THEN Ok(Eval(mode, U, T, r.of, n, env).env)
+                ELSE [ok |-> ok, env |-> env]
       [] r.op = "all" -> FoldAll(mode, U, T, r.subs, 1, n, env)
       [] r.op = "any" -> FirstAny(mode, U, T, r.subs, 1, n, env, 0)
       [] r.op = "not" ->
